@@ -12,6 +12,8 @@ use tu_verif::sched::{self, Config, Exec, Halt, Parked};
 
 /// the poll budget of the unit being explored (recorded in replay cases)
 static SPIN: AtomicUsize = AtomicUsize::new(0);
+/// the base schedule policy of the unit being explored (recorded in replay cases)
+static POLICY: AtomicUsize = AtomicUsize::new(0);
 
 /// what the upstream iterator of the unit being explored reports as its size hint (0 exact, 1 nothing
 /// `(0, None)`, 2 an inexact non-zero lower bound `(1, Some(n + 2))`); recorded in replay cases
@@ -119,7 +121,7 @@ fn check(run: &mut Run, mode: &str, w: usize, n: usize, bound: Option<usize>, x:
         run.nontrivial += 1;
     }
     let expect: Vec<usize> = (0..n).map(f).collect();
-    let case = || json!({"mode": mode, "workers": w, "items": n, "bound": bound, "spin_polls": SPIN.load(Ordering::SeqCst), "upstream_size_hint": HINTS[HINT.load(Ordering::SeqCst)], "choices": x.choices(), "schedule": x.schedule()});
+    let case = || json!({"mode": mode, "workers": w, "items": n, "bound": bound, "spin_polls": SPIN.load(Ordering::SeqCst), "base_schedule_policy": POLICY.load(Ordering::SeqCst), "upstream_size_hint": HINTS[HINT.load(Ordering::SeqCst)], "choices": x.choices(), "schedule": x.schedule()});
     if x.spun > 0 {
         run.count_n("polls of busy waits let through (long waits)", x.spun);
     }
@@ -247,6 +249,21 @@ fn units(run: &Run) -> Vec<Unit> {
             u.push(Unit { mode: "default-schedule", w, n, bound: Some(0), part: None, spin: 0, hint: 0 });
         }
     }
+    // more workers than a small-count special case would cover, with more items than the channel
+    // holds (the channel fills while the consumer is not scheduled): every schedule with at most one
+    // preemption
+    // (the full schedule space of 9 workers is out of reach -- a one-preemption search of W=9, N=11 was
+    // stopped after 173 000 executions --, so the deviations are a named kind of race: decisions taken
+    // while two or more threads are parked at a send on the pipe's channel, at most 2 of them, around
+    // the base schedule 'fair workers, consumer last' in which every worker holds an item and the
+    // channel fills before the consumer moves)
+    u.push(Unit { mode: "sender-races", w: 9, n: 11, bound: Some(2), part: None, spin: 0, hint: 0 });
+    u.push(Unit { mode: "sender-races", w: 3, n: 5, bound: Some(2), part: None, spin: 0, hint: 0 });
+    if !quick {
+        u.push(Unit { mode: "sender-races", w: 17, n: 19, bound: Some(2), part: None, spin: 0, hint: 0 });
+        // any two threads at an operation of the channel (the ordinary producer / consumer race), one deviation
+        u.push(Unit { mode: "channel-races", w: 9, n: 11, bound: Some(1), part: None, spin: 0, hint: 0 });
+    }
     // upstream iterators whose size hint is not exact (every interleaving again for the small cases):
     // the number of items is what the iterator yields, not what it announces
     for hint in 1..HINTS.len() {
@@ -277,6 +294,7 @@ fn main() {
         let n = case["items"].as_u64().unwrap() as usize;
         let choices: Vec<usize> = case["choices"].as_array().unwrap().iter().map(|v| v.as_u64().unwrap() as usize).collect();
         sched::set_spin_polls(case["spin_polls"].as_u64().unwrap_or(0) as usize);
+        sched::set_base_policy(case["base_schedule_policy"].as_u64().unwrap_or(0) as usize);
         HINT.store(HINTS.iter().position(|h| Some(*h) == case["upstream_size_hint"].as_str()).unwrap_or(0), Ordering::SeqCst);
         let (x, calls) = exec(w, n, &choices);
         // replaying a recorded schedule must reproduce it exactly
@@ -327,6 +345,30 @@ fn main() {
             ck(&x, &[]);
             run.count_n("default-schedule:executions", 1);
             per_unit.push(json!({"mode": u.mode, "workers": w, "items": n, "executions": 1, "steps": x.steps.len(), "completed": true}));
+            continue;
+        }
+        sched::set_base_policy(usize::from(u.mode == "sender-races" || u.mode == "channel-races"));
+        POLICY.store(usize::from(u.mode == "sender-races" || u.mode == "channel-races"), Ordering::SeqCst);
+        if u.mode == "sender-races" || u.mode == "channel-races" {
+            let senders_only = u.mode == "sender-races";
+            let is_point = move |st: &tu_verif::sched::Step| {
+                let at_chan = st
+                    .parked
+                    .iter()
+                    .filter(|p| match p {
+                        Some(Parked::Ev(Event::Send { obj: Obj::PipeChan })) | Some(Parked::Ev(Event::TrySend { obj: Obj::PipeChan })) => true,
+                        Some(Parked::Ev(Event::Recv { obj: Obj::PipeChan })) => !senders_only,
+                        _ => false,
+                    })
+                    .count();
+                at_chan >= 2
+            };
+            let stats = sched::explore_deviations(u.bound.unwrap_or(1), deadline, is_point, &mut ex, &mut ck);
+            run.count_n(&format!("{}:executions", u.mode), stats.executions);
+            per_unit.push(json!({"mode": u.mode, "workers": w, "items": n, "max_deviations": bound, "executions": stats.executions, "max_depth": stats.max_depth, "completed": !stats.stopped_early}));
+            if stats.stopped_early && run.num_violations() == 0 {
+                run.capped = Some(format!("time budget reached in {mode} W={w} N={n}"));
+            }
             continue;
         }
         let stats = match (u.bound, u.part) {
